@@ -750,7 +750,7 @@ func (f *Flow) ReachRefined2(from Pt, obj types.Object, wantNil bool, isBool boo
 			}
 			return path, true
 		}
-		if n := it.pt.Node(); n != nil && it.fresh && assignsObj(f.Info, n, obj) {
+		if n := it.pt.Node(); n != nil && it.fresh && assignsObj(f.Info, n, obj) && !assignsSame(f.Info, n, obj, wantNil, isBool) {
 			it.fresh = false
 		}
 		expand(it, self, true)
@@ -1029,4 +1029,32 @@ func (f *Flow) World(val func(atom ast.Expr) (truth bool, known bool)) func(b *c
 		v, known := eval(cond)
 		return known && v != (i == 0)
 	}
+}
+
+// assignsSame: node n assigns obj exactly the value the refinement already assumes (constant true/false for bool
+// flags, nil for pointers/errors) – the assumption stays valid.
+func assignsSame(info *types.Info, n ast.Node, obj types.Object, wantNil, isBool bool) bool {
+	same := false
+	inspectNoLit(n, func(x ast.Node) bool {
+		as, ok := x.(*ast.AssignStmt)
+		if !ok || len(as.Lhs) != len(as.Rhs) {
+			return true
+		}
+		for i, l := range as.Lhs {
+			if objOf(info, l) != obj {
+				continue
+			}
+			if isBool {
+				if tv, ok := info.Types[as.Rhs[i]]; ok && tv.Value != nil {
+					if (tv.Value.String() == "false") == wantNil && (tv.Value.String() == "true" || tv.Value.String() == "false") {
+						same = true
+					}
+				}
+			} else if wantNil && isNilIdent(info, as.Rhs[i]) {
+				same = true
+			}
+		}
+		return true
+	})
+	return same
 }
